@@ -327,8 +327,9 @@ def concrete_playback(hdir, target_dir, harness, log_path, timeout_s, mem_gb, ex
             cmd += ["-Z", "unstable-options"]
         cmd += ["--cbmc-args"] + list(cbmc_args)
     with open(log_path, "w") as lf:
+        # the trace-producing run needs more memory than the plain run
         p = subprocess.Popen(cmd, cwd=hdir, env=_env(), stdout=lf, stderr=subprocess.STDOUT,
-                             preexec_fn=_limit(mem_gb))
+                             preexec_fn=_limit(max(mem_gb * 1.5, 24)))
         CHILDREN.add(p.pid)
         try:
             p.wait(timeout=timeout_s)
